@@ -1048,7 +1048,56 @@ func (vc *FuncVC) execAlloc(st *State, x *ssa.Alloc) Value {
 		return r
 	}
 	vc.storeAt(st, PtrVal{Base: r, T: t}, vc.zero(t))
+	vc.initGhost(st, r, typeKey(t), t, 0)
 	return r
+}
+
+// initGhost gives the integer and boolean ghost fields of a freshly allocated object (and of the external structs
+// embedded in it, e.g. sync.Mutex.held) their zero values, like Go does for real fields.
+func (vc *FuncVC) initGhost(st *State, r Term, prefix string, t types.Type, depth int) {
+	for _, g := range vc.w.specs.Ghosts {
+		var gpkg *types.Package
+		if g.Pkg != "" {
+			gpkg = vc.w.typPkgs[g.Pkg]
+		}
+		gt := vc.w.LookupType(g.Type, gpkg)
+		if gt == nil || !types.Identical(gt, t) {
+			continue
+		}
+		var gs Sort
+		func() {
+			defer func() { recover() }()
+			gs, _ = vc.specSort(g.Sort, gpkg)
+		}()
+		var z Term
+		switch gs {
+		case SInt:
+			z = IntLit(0)
+		case SBool:
+			z = tFalse
+		default:
+			continue
+		}
+		name := prefix + "." + g.Field
+		hs := ArraySort(SRef, gs)
+		h := st.heap(vc, name, hs)
+		nh := vc.fresh(st, "H."+name, hs)
+		st.assume(Eq(nh, Store(h, r, z)))
+		st.setHeap(name, nh)
+	}
+	if depth >= 1 {
+		return
+	}
+	if u, ok := t.Underlying().(*types.Struct); ok {
+		for i := 0; i < u.NumFields(); i++ {
+			ft := u.Field(i).Type()
+			if _, isStruct := ft.Underlying().(*types.Struct); isStruct {
+				if n, isNamed := ft.(*types.Named); isNamed && !vc.isLocalStruct(n) {
+					vc.initGhost(st, r, prefix+"."+u.Field(i).Name(), ft, depth+1)
+				}
+			}
+		}
+	}
 }
 
 // initArray zero-initialises elements [0,n) of a fresh array object.
